@@ -3,6 +3,7 @@ import GqlProofs.SchemaTotal
 import GqlProofs.SchemaAppend
 import GqlProofs.SchemaOrder
 import GqlProofs.SchemaBridge
+import GqlModel.SchemaLive
 /-! # C11 — Schema construction never yields an inconsistent type system
 
 Property theorems only. `M` = `newSchema` / `appendType` (lean/GqlModel/SchemaBuild.lean: `graphql.NewSchema`,
@@ -160,5 +161,59 @@ private def cfgBadImpl : Config :=
     query := some 13, extra := [.ref 17] }
 example : errIs cfgBadTypes .badNonNull = true := by decide +kernel
 example : errIs cfgBadImpl .ifaceMissingField = true := by decide +kernel
+
+/-! ## Histories with mutation (lean/GqlModel/SchemaLive.lean)
+
+The theorems above speak about one configuration `cfg` from `newSchema` through every `appendType`: their premise is
+that **no type object is changed between its construction and the last append** (`Object.AddFieldConfig`,
+`Interface.AddFieldConfig`, `InputObject.AddFieldConfig` change a type object). Mutations that happen before the
+object enters a type map are covered too: they are just another `cfg`. What /repo HEAD does when a type is changed
+AFTER it entered the type map is modelled by `Live` / `runHistory` (bug-faithful) and pinned here by kernel-checked
+witnesses; the property fails there (defect class `mutatedTypeNotRevalidated`, D-11h). -/
+
+/-- `I {a}`, `O implements I {a}` (plain-map fields), input `In {t}`, query `{o(in: In): O}`; not yet referenced:
+object `New {x}` (id 17) and enum `E` (id 18) -/
+private def cfgH : Config :=
+  { types := [q [{ name := "o", type := .ref 15, args := [{ name := "in", type := .ref 16 }] }],
+      { kind := .interface, name := "I", fields := [{ name := "a", type := .ref 0 }] },
+      { kind := .object, name := "O", fields := [{ name := "a", type := .ref 0 }], refs := [some 14] },
+      { kind := .inputObject, name := "In", inputFields := [{ name := "t", type := .ref 0 }] },
+      { kind := .object, name := "New", fields := [{ name := "x", type := .ref 0 }], refsForm := .absent },
+      { kind := .enum, name := "E", values := [("A", true)] }],
+    query := some 13 }
+
+private def histOk (h : List HStep) : Option (List Nat) :=
+  match runHistory { cfg := cfgH } 0 h with
+  | .ok st => some st.tm
+  | .error _ => none
+
+private def upfrontOk (h : List HStep) : Option (List Nat) :=
+  match upfront { cfg := cfgH } h with
+  | .ok st => some st.tm
+  | .error _ => none
+
+/-- HEAD, D-11h: `O.AddFieldConfig("n", New)` after `NewSchema`, then `AppendType(O)`: accepted, but `New` (17) is
+not registered, although `NewSchema` on the same final configuration registers it. -/
+example : let h := [HStep.newSchema, .addField 15 { name := "n", type := .ref 17 }, .append (.ref 15)]
+    (histOk h).map (·.contains 17) = some false ∧ (upfrontOk h).map (·.contains 17) = some true ∧
+    mutatesRegistered { cfg := cfgH } h = true := by decide +kernel
+
+/-- HEAD, D-11h: a field of INPUT type added to the registered object `O`, then `AppendType(O)`: accepted although
+`NewSchema` rejects the same final configuration; likewise an input field of a new enum type. -/
+example : let h := [HStep.newSchema, .addField 15 { name := "bad", type := .ref 16 }, .append (.ref 15)]
+    (histOk h).isSome = true ∧ (upfrontOk h).isSome = false := by decide +kernel
+example : let h := [HStep.newSchema, .addInputField 16 { name := "e", type := .ref 18 }, .append (.ref 16)]
+    (histOk h).map (·.contains 18) = some false ∧ (upfrontOk h).map (·.contains 18) = some true := by decide +kernel
+
+/-- HEAD is right on the history of seeded change C11-9 (`InputObject.AddFieldConfig` validates at once): an input
+field of OBJECT type added to the registered `In`, then `AppendType(In)`: rejected, like up front. -/
+example : let h := [HStep.newSchema, .addInputField 16 { name := "owner", type := .ref 15 }, .append (.ref 16)]
+    histOk h = none ∧ upfrontOk h = none := by decide +kernel
+
+/-- the order the theorems cover: a type changed BEFORE it enters the type map — history and up front agree -/
+example : let h := [HStep.newSchema, .addField 17 { name := "e", type := .ref 0, args := [{ name := "a", type := .ref 18 }] },
+      .append (.ref 17)]
+    histOk h = upfrontOk h ∧ (histOk h).map (·.contains 18) = some true ∧
+    mutatesRegistered { cfg := cfgH } h = false := by decide +kernel
 
 end GqlModel.SchemaBuild
